@@ -9,6 +9,22 @@ pub struct Session {
     pub ax: Option<Axecutor>,
 }
 
+fn name_opt(s: &str) -> Option<String> {
+    if s == "~" {
+        None
+    } else {
+        Some(s.to_string())
+    }
+}
+
+pub fn fnv64(b: &[u8]) -> u64 {
+    let mut h: u64 = 0xcbf29ce484222325;
+    for x in b {
+        h = (h ^ (*x as u64)).wrapping_mul(0x100000001b3);
+    }
+    h
+}
+
 fn res_unit<E>(r: Result<(), E>) -> String {
     match r {
         Ok(()) => "ok".into(),
@@ -25,6 +41,16 @@ impl Session {
         self.ax.as_mut().expect("no machine: missing `new`")
     }
 
+    fn do_new(&mut self, code: &[u8], start: u64, rip: u64) -> String {
+        match Axecutor::new(code, start, rip) {
+            Ok(ax) => {
+                self.ax = Some(ax);
+                "ok".into()
+            }
+            Err(_) => "err".into(),
+        }
+    }
+
     /// Execute one command; a panic inside ax is reported as "panic".
     pub fn run(&mut self, line: &str) -> String {
         let ws: Vec<&str> = line.split_whitespace().collect();
@@ -37,10 +63,12 @@ impl Session {
 
     fn dispatch(&mut self, ws: &[&str]) -> Option<String> {
         match ws {
-            ["new"] => {
-                let ax = Axecutor::new(&[0x90], 0x1000, 0x1000).ok()?;
-                self.ax = Some(ax);
-                Some("-".into())
+            ["new"] => Some(self.do_new(&[0x90], 0x1000, 0x1000)),
+            ["new", code, start, rip] => {
+                let code = unhex(code)?;
+                let start = parse_hex(start)?;
+                let rip = parse_hex(rip)?;
+                Some(self.do_new(&code, start, rip))
             }
             ["setregs", v] => {
                 let vals: Option<Vec<u64>> = v.split(',').map(parse_hex).collect();
@@ -82,6 +110,111 @@ impl Session {
                     Ok(v) => format!("ok {:x}", v),
                     Err(_) => "err".into(),
                 })
+            }
+            ["mrb", a, n] => {
+                let (a, n) = (parse_hex(a)?, parse_hex(n)?);
+                Some(match self.ax().mem_read_bytes(a, n) {
+                    Ok(b) => format!("ok {}", hex(&b)),
+                    Err(_) => "err".into(),
+                })
+            }
+            ["mwb", a, d] => {
+                let (a, d) = (parse_hex(a)?, unhex(d)?);
+                Some(res_unit(self.ax().mem_write_bytes(a, &d)))
+            }
+            ["mr", n, a] => {
+                let a = parse_hex(a)?;
+                let ax = self.ax();
+                let r: Result<u128, _> = match *n {
+                    "1" => ax.mem_read_8(a).map(|v| v as u128),
+                    "2" => ax.mem_read_16(a).map(|v| v as u128),
+                    "4" => ax.mem_read_32(a).map(|v| v as u128),
+                    "8" => ax.mem_read_64(a).map(|v| v as u128),
+                    "16" => ax.mem_read_128(a),
+                    _ => return None,
+                };
+                Some(match r {
+                    Ok(v) => format!("ok {:x}", v),
+                    Err(_) => "err".into(),
+                })
+            }
+            ["mw", n, a, v] => {
+                let a = parse_hex(a)?;
+                let v = parse_hex128(v)?;
+                let ax = self.ax();
+                if *n != "16" && v > u64::MAX as u128 {
+                    return None;
+                }
+                Some(res_unit(match *n {
+                    "1" => ax.mem_write_8(a, v as u64),
+                    "2" => ax.mem_write_16(a, v as u64),
+                    "4" => ax.mem_write_32(a, v as u64),
+                    "8" => ax.mem_write_64(a, v as u64),
+                    "16" => ax.mem_write_128(a, v),
+                    _ => return None,
+                }))
+            }
+            ["mrx", a] => {
+                let a = parse_hex(a)?;
+                Some(match self.ax().verif_fetch_bytes(a) {
+                    Ok(b) => format!("ok {}", hex(&b)),
+                    Err(_) => "err".into(),
+                })
+            }
+            ["area", s, d, nm] => {
+                let (s, d) = (parse_hex(s)?, unhex(d)?);
+                Some(res_unit(self.ax().mem_init_area_named(s, d, name_opt(nm))))
+            }
+            ["zero", s, n, nm] => {
+                let (s, n) = (parse_hex(s)?, parse_hex(n)?);
+                Some(res_unit(match name_opt(nm) {
+                    Some(name) => self.ax().mem_init_zero_named(s, n, name),
+                    None => self.ax().mem_init_zero(s, n),
+                }))
+            }
+            ["prot", s, p] => {
+                let (s, p) = (parse_hex(s)?, parse_hex(p)?);
+                Some(res_unit(self.ax().mem_prot(s, p as u32)))
+            }
+            ["resize", s, n] => {
+                let (s, n) = (parse_hex(s)?, parse_hex(n)?);
+                Some(res_unit(self.ax().mem_resize_section(s, n)))
+            }
+            ["anyz", n] => {
+                let n = parse_hex(n)?;
+                Some(match self.ax().mem_init_zero_anywhere(n) {
+                    Ok(a) => format!("ok {:x}", a),
+                    Err(_) => "err".into(),
+                })
+            }
+            ["any", d, nm] => {
+                let d = unhex(d)?;
+                Some(match self.ax().mem_init_anywhere(d, name_opt(nm)) {
+                    Ok(a) => format!("ok {:x}", a),
+                    Err(_) => "err".into(),
+                })
+            }
+            ["areas"] => {
+                let v = self.ax().verif_areas();
+                if v.is_empty() {
+                    return Some("none".into());
+                }
+                Some(
+                    v.iter()
+                        .map(|a| {
+                            format!(
+                                "{},{:x},{:x},{},{:x},{:x}",
+                                a.name.clone().unwrap_or("~".into()),
+                                a.start,
+                                a.length,
+                                a.access,
+                                a.data.len(),
+                                fnv64(&a.data)
+                            )
+                        })
+                        .collect::<Vec<_>>()
+                        .join(" "),
+                )
             }
             ["regs"] => {
                 let ax = self.ax();
